@@ -252,6 +252,9 @@ type sparseScenario struct {
 	growths []int  // nil: one blob insert; else one transaction per entry growing the database by that many pages, each followed by ONE incremental sync
 	follow  bool   // continue with Snapshot, Compact x2, Close, Restore and the image comparison
 	must    bool   // runs even when the quick tier's time budget is used up
+	walOnly bool   // the growth across the lock page is committed BEFORE the first sync and never checkpointed:
+	// the snapshotting first sync and an explicit Snapshot both take pages n0+1.. from the WAL only, while the
+	// database file still ends before the lock page (seed C17d: a pre-flight count that forgets the lock page)
 }
 
 // boundaryHistories: the previously synced size on each side of the lock page
@@ -375,10 +378,11 @@ func (e *emitter) checkFileContent(path string, ps uint32, patterned map[uint32]
 
 func boundaryHistories(ps uint32, followFirst bool) []sparseScenario {
 	h := func(delta int, follow bool, g ...int) sparseScenario {
-		return sparseScenario{ps, delta, fmt.Sprintf("prev=lock%+d growth=%v", delta, g), g, follow, false}
+		return sparseScenario{ps, delta, fmt.Sprintf("prev=lock%+d growth=%v", delta, g), g, follow, false, false}
 	}
 	return []sparseScenario{
-		{ps, 4, "first sync with database-file pages beyond the lock page, growth=[1]", []int{1}, false, true},
+		{ps, 4, "first sync with database-file pages beyond the lock page, growth=[1]", []int{1}, false, true, false},
+		{ps, -2, "first sync and Snapshot with the growth across the lock page only in the WAL, growth=[1]", []int{1}, false, true, true},
 		h(-1, followFirst, 2, 5), // exactly 1 GiB, then across the lock page
 		h(-2, false, 1, 1, 1, 2), // lock-2 -> lock-1 -> lock+1 -> lock+2 -> lock+4
 		h(-1, false, 5),
@@ -397,10 +401,10 @@ func (e *emitter) sparseDatabases(r *rand.Rand, dir, tier string) error {
 	if tier == "thorough" {
 		budget = 24 * time.Hour
 		for _, ps := range allPageSizes {
-			scs = append(scs, sparseScenario{ps, -3, "lock-beyond-then-inside", nil, true, false})
+			scs = append(scs, sparseScenario{ps, -3, "lock-beyond-then-inside", nil, true, false, false})
 			scs = append(scs, boundaryHistories(ps, ps == 65536 || ps == 4096)...)
 			if ps == 65536 || ps == 4096 {
-				scs = append(scs, sparseScenario{ps, 0, "lock-last-page", nil, true, false}, sparseScenario{ps, 2, "lock-inside", nil, true, false}, sparseScenario{ps, -1, "lock-next-page", nil, true, false})
+				scs = append(scs, sparseScenario{ps, 0, "lock-last-page", nil, true, false, false}, sparseScenario{ps, 2, "lock-inside", nil, true, false, false}, sparseScenario{ps, -1, "lock-next-page", nil, true, false, false})
 			}
 		}
 	} else {
@@ -410,17 +414,17 @@ func (e *emitter) sparseDatabases(r *rand.Rand, dir, tier string) error {
 		// the lock page in one incremental sync, then snapshot / compaction / restore
 		bh := boundaryHistories(65536, false)
 		scs = append(scs, bh[:7]...)
-		scs = append(scs, sparseScenario{65536, -1, "lock-next-page-then-inside", nil, true, true})
+		scs = append(scs, sparseScenario{65536, -1, "lock-next-page-then-inside", nil, true, true, false})
 		scs = append(scs, bh[7:]...)
 		scs = append(scs, boundaryHistories(4096, false)[:3]...)
-		scs = append(scs, sparseScenario{65536, 0, "lock-last-page", nil, true, false}, sparseScenario{65536, -3, "lock-beyond-then-inside", nil, true, false})
+		scs = append(scs, sparseScenario{65536, 0, "lock-last-page", nil, true, false, false}, sparseScenario{65536, -3, "lock-beyond-then-inside", nil, true, false, false})
 		switch os.Getenv("VERIF_LTX_SCENARIO") {
 		case "4096":
-			scs = []sparseScenario{{4096, -3, "lock-beyond-then-inside", nil, true, true}}
+			scs = []sparseScenario{{4096, -3, "lock-beyond-then-inside", nil, true, true, false}}
 		case "last":
-			scs = []sparseScenario{{65536, 0, "lock-last-page", nil, true, true}}
+			scs = []sparseScenario{{65536, 0, "lock-last-page", nil, true, true, false}}
 		case "next":
-			scs = []sparseScenario{{65536, -1, "lock-next-page", nil, true, true}}
+			scs = []sparseScenario{{65536, -1, "lock-next-page", nil, true, true, false}}
 		case "boundary":
 			scs = boundaryHistories(65536, true)
 		}
@@ -576,6 +580,12 @@ func (e *emitter) sparseOne(r *rand.Rand, dir string, sc sparseScenario, decodeA
 	if err := exec("INSERT INTO t(v) VALUES (randomblob(50))"); err != nil {
 		return err
 	}
+	if sc.walOnly {
+		// growth across the lock page in the WAL before anything was synced
+		if err := exec("INSERT INTO t(v) VALUES (randomblob(?))", int(ps)*5+int(ps)/2); err != nil {
+			return err
+		}
+	}
 	if err := db.Sync(ctx); err != nil {
 		return fmt.Errorf("first sync (snapshot path, commit=lockPgno%+d): %w", sc.delta, err)
 	}
@@ -630,6 +640,12 @@ func (e *emitter) sparseOne(r *rand.Rand, dir string, sc sparseScenario, decodeA
 		}
 	}
 	lap("second sync")
+	if sc.walOnly {
+		if _, err := db.Snapshot(ctx); err != nil {
+			return fmt.Errorf("snapshot while the growth across the lock page is only in the WAL (database file = lockPgno%+d pages): %w", sc.delta, err)
+		}
+		lap("wal-only snapshot")
+	}
 	wal1, _ := os.ReadFile(path + "-wal")
 	if err := db.Replica.Sync(ctx); err != nil {
 		return fmt.Errorf("replica sync: %w", err)
